@@ -415,6 +415,12 @@ def run(P, rep, tier):
                        'object\'s value - each left in %rax in the convention of the expression\'s type (sizes 1, 2, 4: sign-/zero-extended to 32 bits; size 8: all 64 bits), for every storage unit x signedness x '
                        'field width x position; decided by evaluating the final term of the emitted code on boundary operand values with every undefined register half / clobbered register / old memory byte set to junk', floor=900)
     r_value_convention(cg, rep, 'R01.19')
+    from ..lib_c01bf import r_produced_values
+    rep.rule('R01.20', 'register convention of narrow values, arms of gen_expr that produce the value by an instruction of their own: the value of an atomic exchange is the old value of the object, the value of a '
+                       'compare-and-swap is the int 0 or 1, the value of a call is what the callee left in the low bits of %rax (the bits above the return type are undefined on return), the value of a plain member '
+                       'is the member\'s value - each left in %rax extended per the SIGNEDNESS and size of the expression\'s type (a later conversion to int emits nothing), for every integer type; decided like R01.19 '
+                       'by evaluating the final term on boundary values with every undefined bit set to junk', floor=30)
+    r_produced_values(cg, rep, 'R01.20', P)
     from .c03 import r_logic
     rep.rule('R01.10', '&& and ||: the left operand is evaluated and tested first, the right operand only when it decides the result, each operand is compared with zero at its own type and width, and the result is the int 0 or 1', floor=8)
     r_logic(cg, rep, 'R01.10')
